@@ -18,6 +18,14 @@ def corr(name, rules, generate=None, ctype="event_count"):
     return {"title": name, "name": name, "correlation": c}
 
 
+def ext(name, condition, generate=None):
+    """a temporal correlation rule that names its rules only in an extended (boolean) condition - no rules list"""
+    c = {"type": "temporal", "timespan": "5m", "group-by": ["u"], "condition": condition}
+    if generate is not None:
+        c["generate"] = generate
+    return {"title": name, "name": name, "correlation": c}
+
+
 ID_B = "11111111-2222-4333-8444-555555555555"
 ID_C, ID_C3, ID_B2 = "22222222-2222-4333-8444-555555555555", "33333333-2222-4333-8444-555555555555", "44444444-2222-4333-8444-555555555555"
 SETS = {
@@ -33,6 +41,10 @@ SETS = {
     # a correlation rule that has a name AND an id, referred to by its id
     # ids written in upper case / with braces are still ids
     "upper_id": [plain("a"), plain("b", ID_B), corr("c1", ["a", ID_B.upper()]), corr("c2", ["{" + ID_B + "}", "c1"])],
+    # rules named only by an extended condition: ordered before the correlation rule and subject to the same generation rule
+    "extended_only": [plain("a"), plain("b"), ext("x1", "a and not b"), plain("u")],
+    "extended_generate": [plain("a"), plain("b"), ext("x1", "a and not b", True), plain("u")],
+    "extended_chain": [plain("a"), plain("b"), ext("x1", "a or b"), corr("c2", ["x1"]), plain("u")],
     "corr_by_id": [plain("a"), {**corr("c1", ["a"]), "id": ID_C}, corr("c2", [ID_C]), {**corr("c3", ["c1", ID_B2]), "id": ID_C3}, plain("b2", ID_B2)],
 }
 
@@ -128,6 +140,15 @@ class C09Bounded(Bounded):
                     d = dict(o[1])
                     if d["a"][0] is not False:
                         fails.append({"text": f"rule referenced by a correlation rule without generation still emits its own query: {d['a']}", "input": [sname]})
+                if sname in ("extended_only", "extended_generate", "extended_chain"):
+                    want_out = {"a": sname == "extended_generate", "b": sname == "extended_generate", "u": True}
+                    if o[0] != "ok":
+                        fails.append({"text": f"rule set {sname} (rules named only in an extended condition): {o}", "input": [sname]})
+                    else:
+                        d = dict(o[1])
+                        got_out = {k: d[k][0] for k in want_out}
+                        if got_out != want_out or any(d[k][0] == "no-result" for k in d):
+                            fails.append({"text": f"rule set {sname}: rules emitting their own query {got_out}, expected {want_out} (named only in an extended condition, generate {'on' if sname == 'extended_generate' else 'off'}); results {str(d)[:200]}", "input": [sname]})
                 if sname == "generate_only" and o[0] == "ok" and dict(o[1])["a"][0] is not True:
                     fails.append({"text": "rule referenced only with generation enabled emits no query", "input": [sname]})
                 if sname == "mixed_generate_chain" and o[0] == "ok":
